@@ -47,6 +47,14 @@ impl RecordingStore {
     }
 }
 
+impl RecordingStore {
+    /// A new store holding a copy of everything durable right now (what a new process would find
+    /// after this one died), with its own log.
+    pub fn fork(&self) -> Self {
+        RecordingStore { inner: Arc::new(self.inner.fork()), log: Arc::new(Log::default()) }
+    }
+}
+
 impl fmt::Display for RecordingStore {
     fn fmt(&self, f: &mut fmt::Formatter<'_>) -> fmt::Result {
         f.write_str("RecordingStore")
